@@ -13,7 +13,13 @@ META = {
     "note": "Bounded part: tests/**/*.vhd, re-layouts derived from the file path (whitespace resize, case change outside literals, line split, line join, comment insertion). Trusted: pyvc, SMT solvers, class table read from the real classes.",
 }
 
-QUALS = ["vsg.vhdlFile.utils.find_next_token", "vsg.vhdlFile.utils.is_item", "vsg.vhdlFile.utils.object_value_is"]
+QUALS = [
+    "vsg.vhdlFile.utils.find_next_token",
+    "vsg.vhdlFile.utils.is_item",
+    "vsg.vhdlFile.utils.object_value_is",
+    "vsg.vhdlFile.utils.token_is_whitespace_or_comment",
+    "vsg.vhdlFile.utils.find_next_non_whitespace_token",
+]
 
 
 def run():
@@ -24,7 +30,7 @@ def run():
     files = corpus.sample(n, c.seed + 5)
     res = corpus.pmap(relayout.one, files, chunksize=4)
     ok = [r for r in res if r[1] == "ok"]
-    c.bounded["relayout"] = {"evaluations": 5 * len(ok), "distinct_nontrivial": len(ok), "rejected_originals": len(res) - len(ok), "rule": "accepted corpus file x 5 path-derived re-layouts; roles (token classes) of all code tokens compared; non-trivial = distinct accepted file"}
+    c.bounded["relayout"] = {"evaluations": 6 * len(ok), "distinct_nontrivial": len(ok), "rejected_originals": len(res) - len(ok), "rule": "accepted corpus file x 6 path-derived re-layouts (white-space resize, case change outside literals, line split, line join, comment insertion, pragma-like own-line comments between tokens); roles (token classes) of all code tokens compared; non-trivial = distinct accepted file"}
     for p, st, probs in res:
         for kind, why in probs or []:
             rel = os.path.relpath(p, corpus.REPO)
